@@ -114,6 +114,16 @@ Theorem C02_content_type_values_proto :
 Proof. exact ct_value_ok_proto. Qed.
 Print Assumptions C02_content_type_values_proto.
 
+(* ... and for EVERY codec subtype (e.g. "json"): application/grpc+<subtype>, plus the two subtype-less
+   spellings only when the subtype is the default "proto" -- no prefix, suffix or substring of an
+   accepted value is accepted *)
+Theorem C02_content_type_values_all_subtypes :
+  forall csub v, ct_value_ok csub v = true <->
+    (csub = proto_content_subtype /\ (v = grpc_content_type \/ v = grpc_content_type ++ [43]))
+    \/ (csub <> [] /\ v = grpc_content_type ++ 43 :: csub).
+Proof. exact ct_value_ok_all_subtypes. Qed.
+Print Assumptions C02_content_type_values_all_subtypes.
+
 (* what the source says now: constants, raised statuses, caught exception classes, and the order of the
    calls in the response path (Gen.FactsC02 is regenerated from /repo on every run) *)
 Theorem C02_source_facts :
@@ -152,37 +162,39 @@ Print Assumptions C02_source_facts.
 
 (* ------------------------------------------------------------------------------------------------ *)
 (* (2) the bounded abstract domain, closed by complete enumeration (vm_compute + forallb_forall).
-   BOUND: k ranges over all_kinds = the four __call__ kinds and 8 open() bodies (the cardinality of an
-   open() kind is irrelevant: C02_open_cardinality_irrelevant); bs over cases_of 2 k = every header class (2 x 3 x 4 x 2) x trailer class (4 x 2)
-   x layout {nothing, H, H(END), H D^n, H D^n(END), H D^n T; n <= 2} x cut {none, RST, GOAWAY, lost}
+   BOUND: (lis, k, m) ranges over configs = the four __call__ kinds and 8 open() bodies (the cardinality
+   of an open() kind is irrelevant: C02_open_cardinality_irrelevant), each (a) without listeners, m = 2,
+   and (b) with suspending listeners on RecvInitialMetadata, RecvMessage and RecvTrailingMetadata, m = 1;
+   bs over cases_of (lis, k, m) = every header class (2 x 3 x 4 x 2) x trailer class (4 x 2)
+   x layout {nothing, H, H(END), H D^n, H D^n(END), H D^n T; n <= m} x cut {none, RST, GOAWAY, lost}
    x every split point of the cut batch x {one batch, one batch per event} x every trigger
-   {blocked, before step i}. *)
+   {blocked, before step i, (b): during a listener suspension}. *)
 
 Theorem C02_open_cardinality_irrelevant :
-  forall cs ss cs' ss' p bs,
-    outcome (Open cs ss p) bs = outcome (Open cs' ss' p) bs /\
+  forall lis cs ss cs' ss' p bs,
+    outcome lis (Open cs ss p) bs = outcome lis (Open cs' ss' p) bs /\
     defect (Open cs ss p) bs = defect (Open cs' ss' p) bs.
 Proof. exact open_cardinality_irrelevant. Qed.
 Print Assumptions C02_open_cardinality_irrelevant.
 
 (* FULL-STRENGTH STATEMENT (false):
-     forall k bs, In k all_kinds -> In bs (cases_of 2 k) -> spec_allows bs (outcome k bs) = true *)
+     forall lis k m bs, In (lis, k, m) configs -> In bs (cases_of (lis, k, m)) -> spec_allows bs (outcome lis k bs) = true *)
 Theorem C02_table_refuted :
-  exists k bs, In k all_kinds /\ wf_script bs = true /\ spec_allows bs (outcome k bs) = false.
+  exists lis k m bs, In (lis, k, m) configs /\ wf_script bs = true /\ spec_allows bs (outcome lis k bs) = false.
 Proof. exact table_refuted. Qed.
 Print Assumptions C02_table_refuted.
 
 (* every cell of the statement's table, outside the three recorded defect classes *)
 Theorem C02_table_partial :
-  forall k bs, In k all_kinds -> In bs (cases_of 2 k) -> defect k bs = false ->
-               spec_allows bs (outcome k bs) = true.
+  forall lis k m bs, In (lis, k, m) configs -> In bs (cases_of (lis, k, m)) -> defect k bs = false ->
+               spec_allows bs (outcome lis k bs) = true.
 Proof. exact table_partial. Qed.
 Print Assumptions C02_table_partial.
 
 (* success only if grpc-status OK was received on an acceptable response: FULL STRENGTH, the four
    __call__ methods and every open() body *)
 Theorem C02_ok_sound :
-  forall k bs n, In k all_kinds -> In bs (cases_of 2 k) -> outcome k bs = ROk n ->
+  forall lis k m bs n, In (lis, k, m) configs -> In bs (cases_of (lis, k, m)) -> outcome lis k bs = ROk n ->
                  status_ok_received bs = true.
 Proof. exact ok_sound. Qed.
 Print Assumptions C02_ok_sound.
@@ -193,16 +205,16 @@ Theorem C02_closing_before_exit :
              {| b_trig := TS 1; b_events := [AT (T_of GsErr); AGoaway] |}] in
   let done := [{| b_trig := TB; b_events := [AH (H_ok GsAbsent MdOk) false; AD false; AT (T_of GsOk)] |};
                {| b_trig := TS 3; b_events := [AGoaway] |}] in
-  wf_script bs = true /\ outcome (Open false false [RM]) bs = RExc (XServer BTrl) /\
-  outcome (Open false false []) [{| b_trig := TS 0; b_events := [ALost] |}] = RExc XTerminated /\
-  outcome (Open false false [RI; RM; RT]) done = ROk 1.
+  wf_script bs = true /\ outcome no_listeners (Open false false [RM]) bs = RExc (XServer BTrl) /\
+  outcome no_listeners (Open false false []) [{| b_trig := TS 0; b_events := [ALost] |}] = RExc XTerminated /\
+  outcome no_listeners (Open false false [RI; RM; RT]) done = ROk 1.
 Proof. exact closing_before_exit. Qed.
 Print Assumptions C02_closing_before_exit.
 
 (* only GRPCError / StreamTerminatedError leave the call ... *)
 Theorem C02_only_grpc_errors_partial :
-  forall k bs e, In k all_kinds -> In bs (cases_of 2 k) -> d2c k bs = false -> d2d k bs = false ->
-                 outcome k bs = RExc e ->
+  forall lis k m bs e, In (lis, k, m) configs -> In bs (cases_of (lis, k, m)) -> d2c k bs = false -> d2d k bs = false ->
+                 outcome lis k bs = RExc e ->
                  e <> XProtocol /\ e <> XAssertion /\ (forall b, e <> XMetadata b).
 Proof. exact only_grpc_errors_partial. Qed.
 Print Assumptions C02_only_grpc_errors_partial.
@@ -210,85 +222,107 @@ Print Assumptions C02_only_grpc_errors_partial.
 (* ... FULL-STRENGTH (false): malformed user -bin metadata escapes as binascii.Error (D2c) *)
 Theorem C02_metadata_error_refuted :
   let bs := one [AH (H_ok GsAbsent MdBad) false; AD false; AT (T_of GsOk)] in
-  wf_script bs = true /\ outcome (Call false false) bs = RExc (XMetadata BHdr) /\
-  spec_allows bs (outcome (Call false false) bs) = false.
+  wf_script bs = true /\ outcome no_listeners (Call false false) bs = RExc (XMetadata BHdr) /\
+  spec_allows bs (outcome no_listeners (Call false false) bs) = false.
 Proof. exact d2c_refuted. Qed.
 Print Assumptions C02_metadata_error_refuted.
 
 (* ... and grpc-status OK without a message on a unary-reply call escapes as AssertionError (D2d) *)
 Theorem C02_assertion_refuted :
   let bs := one [AH (H_ok GsOk MdOk) true] in
-  wf_script bs = true /\ outcome (Call false false) bs = RExc XAssertion /\
-  spec_allows bs (outcome (Call false false) bs) = false.
+  wf_script bs = true /\ outcome no_listeners (Call false false) bs = RExc XAssertion /\
+  spec_allows bs (outcome no_listeners (Call false false) bs) = false.
 Proof. exact d2d_refuted. Qed.
 Print Assumptions C02_assertion_refuted.
+
+(* the cut is delivered while a listener is suspended (inside `with self._wrapper`): the operation ends
+   in StreamTerminatedError and __aexit__ upgrades it to the status that had arrived -- also when
+   recv_trailing_metadata has already set its done-flag *)
+Theorem C02_cut_during_listener :
+  let resp := [{| b_trig := TB; b_events := [AH (H_ok GsAbsent MdOk) false; AD false; AT (T_of GsErr)] |}] in
+  let lt := {| l_init := false; l_msg := false; l_trail := true |} in
+  outcome lt (Call false false) (resp ++ [{| b_trig := TL; b_events := [ALost] |}]) = RExc (XServer BTrl) /\
+  outcome lt (Open true true [RI; IT; RT]) (resp ++ [{| b_trig := TL; b_events := [ARst] |}])
+  = RExc (XServer BTrl) /\
+  outcome all_listeners (Call false true)
+          [{| b_trig := TB; b_events := [AH (H_ok GsErr MdOk) false] |}; {| b_trig := TL; b_events := [AGoaway] |}]
+  = RExc (XServer BHdr) /\
+  outcome all_listeners (Call true false)
+          [{| b_trig := TB; b_events := [AH (H_ok GsAbsent MdOk) false; AD false] |};
+           {| b_trig := TL; b_events := [ALost] |}]
+  = RExc XTerminated /\
+  outcome no_listeners (Call false false) (resp ++ [{| b_trig := TL; b_events := [ALost] |}])
+  = RExc (XServer BTrl).
+Proof. exact cut_during_listener. Qed.
+Print Assumptions C02_cut_during_listener.
 
 (* invalid content-type + grpc-status + reset: the server's status instead of UNKNOWN (D2g) *)
 Theorem C02_content_type_on_cut_refuted :
   let bs := one [AH {| hi_st := S200; hi_ct := CtBad; hi_gs := GsErr; hi_md := MdOk |} false; ARst] in
-  wf_script bs = true /\ outcome (Call false false) bs = RExc (XServer BHdr) /\
-  spec_allows bs (outcome (Call false false) bs) = false /\
-  outcome (Call false false) (one [AH {| hi_st := S200; hi_ct := CtBad; hi_gs := GsErr; hi_md := MdOk |} false])
+  wf_script bs = true /\ outcome no_listeners (Call false false) bs = RExc (XServer BHdr) /\
+  spec_allows bs (outcome no_listeners (Call false false) bs) = false /\
+  outcome no_listeners (Call false false) (one [AH {| hi_st := S200; hi_ct := CtBad; hi_gs := GsErr; hi_md := MdOk |} false])
   = RExc XContentType.
 Proof. exact d2g_refuted. Qed.
 Print Assumptions C02_content_type_on_cut_refuted.
 
 (* rows of the table with their exact outcome *)
 Theorem C02_row_non200 :
-  forall k bs, In k all_kinds -> In bs (cases_of 2 k) -> row_non200_hyp k bs = true ->
-               outcome k bs = RExc XHttpStatus.
+  forall lis k m bs, In (lis, k, m) configs -> In bs (cases_of (lis, k, m)) -> row_non200_hyp k bs = true ->
+               outcome lis k bs = RExc XHttpStatus.
 Proof. exact row_non200. Qed.
 Print Assumptions C02_row_non200.
 
 Theorem C02_row_server_status_in_trailers :
-  forall k bs, In k all_kinds -> In bs (cases_of 2 k) -> row_server_trl_hyp k bs = true ->
-               outcome k bs = RExc (XServer BTrl).
+  forall lis k m bs, In (lis, k, m) configs -> In bs (cases_of (lis, k, m)) -> row_server_trl_hyp k bs = true ->
+               outcome lis k bs = RExc (XServer BTrl).
 Proof. exact row_server_trailers. Qed.
 Print Assumptions C02_row_server_status_in_trailers.
 
 Theorem C02_row_server_status_trailers_only :
-  forall k bs, In k all_kinds -> In bs (cases_of 2 k) -> row_server_hdr_hyp k bs = true ->
-               outcome k bs = RExc (XServer BHdr).
+  forall lis k m bs, In (lis, k, m) configs -> In bs (cases_of (lis, k, m)) -> row_server_hdr_hyp k bs = true ->
+               outcome lis k bs = RExc (XServer BHdr).
 Proof. exact row_server_headers. Qed.
 Print Assumptions C02_row_server_status_trailers_only.
 
 Theorem C02_row_cut_before_any_status :
-  forall k bs, In k all_kinds -> In bs (cases_of 2 k) -> row_nothing_hyp k bs = true ->
-               outcome k bs = RExc XTerminated.
+  forall lis k m bs, In (lis, k, m) configs -> In bs (cases_of (lis, k, m)) -> row_nothing_hyp k bs = true ->
+               outcome lis k bs = RExc XTerminated.
 Proof. exact row_nothing. Qed.
 Print Assumptions C02_row_cut_before_any_status.
 
 Theorem C02_row_success :
-  forall k bs, In k all_kinds -> In bs (cases_of 2 k) -> row_success_hyp k bs = true ->
-               exists n, outcome k bs = ROk n.
+  forall lis k m bs, In (lis, k, m) configs -> In bs (cases_of (lis, k, m)) -> row_success_hyp k bs = true ->
+               exists n, outcome lis k bs = ROk n.
 Proof. exact row_success. Qed.
 Print Assumptions C02_row_success.
 
 (* ------------------------------------------------------------------------------------------------ *)
 (* (3) the call finishes *)
 
-(* for ALL scripts (any length, any batching, any triggers), all kinds and all open() bodies: an
+(* for ALL scripts (any length, any batching, any triggers), all kinds, all open() bodies and all sets of
+   suspending listeners: an
    effective cut, or END_STREAM in a well-formed script (on the headers, on DATA, or on trailers), make
    the call finish.  FULL STRENGTH. *)
 Theorem C02_no_hang :
-  forall k bs,
+  forall lis k bs,
     ev_cut (events bs) false = true \/ (wf_script bs = true /\ ev_ended (events bs) = true) ->
-    outcome k bs <> RHang.
+    outcome lis k bs <> RHang.
 Proof. exact no_hang_general. Qed.
 Print Assumptions C02_no_hang.
 
 (* the same read off the enumeration *)
 Theorem C02_no_hang_enumerated :
-  forall k bs, In k all_kinds -> In bs (cases_of 2 k) ->
+  forall lis k m bs, In (lis, k, m) configs -> In bs (cases_of (lis, k, m)) ->
                ev_ended (events bs) || ev_cut (events bs) false = true ->
-               outcome k bs <> RHang.
+               outcome lis k bs <> RHang.
 Proof. exact no_hang_enumerated. Qed.
 Print Assumptions C02_no_hang_enumerated.
 
 (* the repaired cell (formerly D2e): END_STREAM without trailers and without grpc-status gives UNKNOWN *)
 Theorem C02_row_end_stream_without_status :
-  forall k bs, In k all_kinds -> In bs (cases_of 2 k) -> row_missing_status_hyp k bs = true ->
-               outcome k bs = RExc (XBadGrpcStatus BTrl).
+  forall lis k m bs, In (lis, k, m) configs -> In bs (cases_of (lis, k, m)) -> row_missing_status_hyp k bs = true ->
+               outcome lis k bs = RExc (XBadGrpcStatus BTrl).
 Proof. exact row_missing_status. Qed.
 Print Assumptions C02_row_end_stream_without_status.
 
@@ -296,16 +330,16 @@ Theorem C02_end_stream_without_trailers :
   let bs := one [AH (H_ok GsAbsent MdOk) false; AD true] in
   let bs' := one [AH (H_ok GsAbsent MdOk) true] in
   wf_script bs = true /\ ev_ended (events bs) = true /\
-  outcome (Call false false) bs = RExc (XBadGrpcStatus BTrl) /\
-  outcome (Call false true) bs = RExc (XBadGrpcStatus BTrl) /\
-  outcome (Call false false) bs' = RExc (XBadGrpcStatus BTrl) /\
-  outcome (Open false true [RI; IT]) bs' = RExc (XBadGrpcStatus BTrl) /\
+  outcome no_listeners (Call false false) bs = RExc (XBadGrpcStatus BTrl) /\
+  outcome no_listeners (Call false true) bs = RExc (XBadGrpcStatus BTrl) /\
+  outcome no_listeners (Call false false) bs' = RExc (XBadGrpcStatus BTrl) /\
+  outcome no_listeners (Open false true [RI; IT]) bs' = RExc (XBadGrpcStatus BTrl) /\
   spec_allows bs (RExc (XBadGrpcStatus BTrl)) = true.
 Proof. exact end_stream_without_trailers. Qed.
 Print Assumptions C02_end_stream_without_trailers.
 
 (* the model never reaches its internal-inconsistency outcome on the domain *)
 Theorem C02_never_stuck :
-  forall k bs, In k all_kinds -> In bs (cases_of 2 k) -> outcome k bs <> RStuck.
+  forall lis k m bs, In (lis, k, m) configs -> In bs (cases_of (lis, k, m)) -> outcome lis k bs <> RStuck.
 Proof. exact never_stuck. Qed.
 Print Assumptions C02_never_stuck.
